@@ -620,6 +620,7 @@ func macMachine(col *collector, b *bufs, mvi int) engine.Machine[*mstate] {
 // ---------------------------------------------------------------------------------------------
 
 func (Prop) Run(c *engine.Ctx) {
+	runCtorAliasing(c)
 	quick := c.Quick()
 
 	// ---- E1 stream: one search per (variant, bucket size) object and alphabet
